@@ -189,6 +189,9 @@ static void gen_wait(int tier)
 	gx_absent(8);
 	gx_eintr(nloops, 10);
 	gx_regfail();
+	/* a driver (an application thread that forks children of its own) that keeps every signal blocked */
+	if (ndrv && P(30))
+		G->thr[nloops].sigmask_all = 1;
 }
 
 /* ---- C19: popen ------------------------------------------------------------------------- */
@@ -268,8 +271,10 @@ static void gen_pool(const char *prop, int tier)
 			int it = items[i];
 			if (P(20)) {
 				int tgt = items[R(nitems)];
-				if (tgt != it && G->obj[tgt].p[0] == G->obj[it].p[0])
+				if (tgt != it && G->obj[tgt].p[0] == G->obj[it].p[0]) {
 					G->obj[it].p[2] = tgt + 1;
+					G->obj[it].p[4] = P(35);	/* does not return before its continuation runs */
+				}
 			}
 			if (P(35))
 				gx_add_op(CTX_CB, it, P(50) ? 0 : 1, OP_SUBMIT, items[R(nitems)], 0, 0, 0);
@@ -290,6 +295,23 @@ static void gen_pool(const char *prop, int tier)
 					gx_add_op(CTX_CB, tm, 0, OP_PUT, pools[R(npools)], 0, 0, 0);
 				if (P(25))
 					gx_add_op(CTX_CB, tm, 1, OP_REG, tm, 1, whens[R(16)], 0);
+			}
+		}
+		if (P(15)) {
+			/* a work function that waits for its continuation, and the owner releasing the pool at the
+			 * very moment the continuation is submitted: the pool still owes that continuation a worker */
+			static const int64_t ds[] = { 1000, MS, 100 * MS, SEC };
+			int p = gx_add_obj(K_POOL, t), a = gx_add_obj(K_ITEM, t), b = gx_add_obj(K_ITEM, t), tm = gx_add_obj(K_TIMER, t);
+			int64_t d = ds[R(4)];
+			if (p >= 0 && a >= 0 && b >= 0 && tm >= 0) {
+				G->obj[p].p[0] = 2 + R(3);
+				G->obj[p].p[1] = !P(12);
+				G->obj[a].p[0] = p; G->obj[a].p[1] = d; G->obj[a].p[2] = b + 1; G->obj[a].p[4] = 1;
+				G->obj[b].p[0] = p; G->obj[b].p[1] = P(50) ? 0 : 1000;
+				gx_add_op(CTX_SETUP, t, 0, OP_REG, p, 0, 0, 0);
+				gx_add_op(CTX_SETUP, t, 0, OP_SUBMIT, a, 0, 0, 0);
+				gx_add_op(CTX_SETUP, t, 0, OP_REG, tm, 1, d + (P(60) ? 0 : P(50) ? 1 : 1000), 0);
+				gx_add_op(CTX_CB, tm, 0, OP_PUT, p, 0, 0, 0);
 			}
 		}
 		if (P(c13 ? 25 : 8))
